@@ -245,3 +245,95 @@ def norm_name(s):
     s = re.sub(r"\s+", "", s)
     s = s.replace("unsignedlong", "ul").replace("UL", "ul")
     return s
+
+
+# ---------------------------------------------------------------------------
+# affine normal forms  (E1 `affine`): {symbol: coeff, 1: const}
+
+def aff_const(c):
+    return {1: c} if c else {}
+
+
+def aff_add(a, b, sign=1):
+    out = dict(a)
+    for k, v in b.items():
+        out[k] = out.get(k, 0) + sign * v
+        if out[k] == 0:
+            del out[k]
+    return out
+
+
+def aff_scale(a, c):
+    return {k: v * c for k, v in a.items() if v * c != 0}
+
+
+def affine(n, env=None, symname=None):
+    """integer expression -> affine form over symbols, or None when not affine.
+    env: decl id -> affine form (substitutions for local variables);
+    symname(node) -> symbol string for leaves (default: rendered member/call path)."""
+    env = env or {}
+    n = strip(n)
+    if n is None:
+        return None
+    k = n.get("k")
+    if k == "IntegerLiteral":
+        return aff_const(n.get("v", 0))
+    if "cv" in n and k not in ("DeclRefExpr",):
+        return aff_const(n["cv"])
+    c = n.get("c") or []
+    if k == "DeclRefExpr":
+        did = n["ref"]["did"]
+        if did in env:
+            return dict(env[did])
+        if "cv" in n and n["ref"].get("const"):
+            return aff_const(n["cv"])
+        return {"v:%s" % n["ref"]["name"].split("::")[-1]: 1}
+    if k == "BinaryOperator":
+        op = n.get("op")
+        a = affine(c[0], env, symname)
+        b = affine(c[1], env, symname)
+        if a is None or b is None:
+            return None
+        if op == "+":
+            return aff_add(a, b)
+        if op == "-":
+            return aff_add(a, b, -1)
+        if op == "*":
+            if set(a) <= {1}:
+                return aff_scale(b, a.get(1, 0))
+            if set(b) <= {1}:
+                return aff_scale(a, b.get(1, 0))
+            return None
+        return None
+    if k == "UnaryOperator":
+        op = n.get("op")
+        a = affine(c[0], env, symname)
+        if a is None:
+            return None
+        if op == "-":
+            return aff_scale(a, -1)
+        if op == "+":
+            return a
+        if op == "++" and n.get("postfix"):
+            return a        # value of x++ is x
+        return None
+    if k in ("MemberExpr", "CXXMemberCallExpr", "CallExpr", "ArraySubscriptExpr", "CXXOperatorCallExpr"):
+        s = symname(n) if symname else None
+        if s is None:
+            s = text(n)
+        return {s: 1}
+    return None
+
+
+def aff_show(a):
+    if a is None:
+        return "<not affine>"
+    parts = []
+    for k, v in sorted(a.items(), key=lambda kv: str(kv[0])):
+        if k == 1:
+            parts.append(str(v))
+        elif v == 1:
+            parts.append(str(k))
+        else:
+            parts.append("%d*%s" % (v, k))
+    return " + ".join(parts) if parts else "0"
